@@ -6,9 +6,9 @@ GO126 = ["go1.26.8"]
 
 BINARIES = {
     # all engines on the repository's own toolchain
-    "hx": {"go": GO, "pkg": "./hx/", "flags": [], "env": {"GOTOOLCHAIN": "auto"}},
+    "hx": {"go": GO, "pkg": "./hx/", "flags": ["-tags", "verif"], "env": {"GOTOOLCHAIN": "auto"}},
     # the same package under the race detector (concurrency checks)
-    "hxrace": {"go": GO, "pkg": "./hx/", "flags": ["-race"], "env": {"GOTOOLCHAIN": "auto"}, "runenv": {"GORACE": "halt_on_error=1"}},
+    "hxrace": {"go": GO, "pkg": "./hx/", "flags": ["-race", "-tags", "verif"], "env": {"GOTOOLCHAIN": "auto"}, "runenv": {"GORACE": "halt_on_error=1"}},
     # virtual-time engines (testing/synctest needs the newer toolchain)
     "vt": {"go": GO126, "pkg": "./vt/", "flags": [], "env": {"GOTOOLCHAIN": "local"}},
     # message constructors / decoders (small dependency tree: fast native fuzzing)
@@ -41,7 +41,7 @@ TRUST = "trusts go-statemachine's in-order delivery of notifications (used to ob
 
 prop("C01", "Completed means delivered", "exploration", "e2e",
      "scenario-based property testing (rapid) of two complete nodes in one process (mocknet + real go-graphsync): relational oracle between both managers and an independent IPLD walk of the payload (block set, bytes, unique size)",
-     [hx("TestC01_E2E", 250, 6400, timeout_quick=1500, timeout_thorough=5400), hx("TestC03_Mgrx", 1500, 16000), hx("TestC01_KnownCrashAfterCompleteSent", 1, 1, shards=1, rapid=False)],
+     [hx("TestC01_E2E", 300, 9600, timeout_quick=1500, timeout_thorough=5400), hx("TestC03_Mgrx", 4500, 64000), hx("TestC01_KnownCrashAfterCompleteSent", 1, 1, shards=1, rapid=False)],
      ["the property is conditional on the initiator reporting Completed after an Accept; runs that end otherwise (graphsync's asynchronous requester-side pause, link verification after re-requests) are classified and counted in the evidence, never judged",
       "goroutine interleavings inside graphsync / libp2p are sampled by the Go scheduler, not controlled; a failing case carries its two-sided event history in the replay file",
       "the clause about a pull satisfied from the initiator's own store is checked on the manager level (mgrx), real graphsync always produces a response before completion"],
@@ -50,14 +50,14 @@ prop("C01", "Completed means delivered", "exploration", "e2e",
 
 prop("C02", "Terminal statuses are final", "exploration", "fsmx",
      "stateful property testing (rapid): before/after equality of all accessors, raw persisted bytes and publication count after every generated stimulus on a terminated channel; plus one complete enumeration of terminal status x event method x reopen",
-     [hx("TestC02_Fsmx", 1500, 32000), hx("TestC02_FsmxTable", 2, 4, shards=1), hx("TestC02_Mgrx", 1200, 32000)],
+     [hx("TestC02_Fsmx", 4500, 128000), hx("TestC02_FsmxTable", 2, 4, shards=1), hx("TestC02_Mgrx", 3600, 128000)],
      ["side effects outside the channel record (a cancel message, a transport close on the id) are not part of the compared state"],
      "generated-stimulus search over terminated channels; the finite table (3 terminal statuses x 2 roles x 28 event methods x {same process, reopened}) is enumerated completely, everything else is sampled",
      TRUST, exhaustive_note="TestC02_FsmxTable enumerates terminal status x role x every public event method x {same process, after reopen} completely")
 
 prop("C03", "No success without both parties", "exploration", "fsmx",
      "model-based stateful property testing (rapid) against a two-facts lifecycle reference model plus per-event frame conditions",
-     [hx("TestC03_Fsmx", 3000, 48000), hx("TestC03_Mgrx", 1500, 32000)],
+     [hx("TestC03_Fsmx", 9000, 192000), hx("TestC03_Mgrx", 4500, 128000)],
      ["histories are role consistent (Open only as first event; initiator and responder alphabets kept apart), as produced by the manager",
       "lifecycle events are not raced against the asynchronous CleanupComplete; every ending is settled before the next event"],
      "generated-history search: every applied event is checked against a reference model written from the statement (two completion facts and the responder's last word) and against frame conditions; not exhaustive",
@@ -65,31 +65,31 @@ prop("C03", "No success without both parties", "exploration", "fsmx",
 
 prop("C04", "Only validated requests move data", "exploration", "mgrx",
      "property testing (rapid) of a real manager over recording doubles: non-interference oracle - acceptance effects imply an accepting validator call in the call log; reply content equals the scripted validator result",
-     [hx("TestC04_MgrxNew", 1500, 32000), hx("TestC04_MgrxRestart", 1200, 32000), hx("TestC04_MgrxUpdate", 1200, 32000)],
+     [hx("TestC04_MgrxNew", 4500, 128000), hx("TestC04_MgrxRestart", 3600, 128000), hx("TestC04_MgrxUpdate", 3600, 128000)],
      ["a validator *error* on restart must produce a refusing reply and no acceptance effect, but need not fail the channel (only a rejection does; DESIGN 6.2)"],
      "generated requests x registry contents x validator outcome vectors x entry paths x later updates x process restart; sampled",
      TRUST)
 
 prop("C05", "Only the counterparty, in its proper role", "exploration", "mgrx",
      "property testing (rapid): datastore snapshot diff and transport call log restricted to pre-existing channel ids after every generated message; single-field mutations of valid restart requests",
-     [hx("TestC05_Mgrx", 1200, 32000), hx("TestC05_MgrxRestart", 1500, 32000), hx("TestC16_Gsx", 800, 8000)],
+     [hx("TestC05_Mgrx", 3600, 128000), hx("TestC05_MgrxRestart", 4500, 128000), hx("TestC16_Gsx", 2400, 32000)],
      ["a refused message may cause transport calls on the non-existing channel id derived from its sender (DESIGN 6.5); 'untouched' is asserted for ids that existed before the message"],
      "generated open-channel sets x senders x message kinds x colliding ids x paths; sampled",
      TRUST)
 
 prop("C10", "Restart resumes the same transfer", "exploration", "mgrx",
      "property testing (rapid): before/after identity diff of the channel record, content of the re-issued request / transport open, validator call order; crash-restart in cleanup statuses",
-     [hx("TestC10_GsxPending", 800, 16000), hx("TestC16_Gsx", 800, 16000), hx("TestC10_MgrxLocal", 1500, 32000), hx("TestC10_MgrxReplay", 1000, 24000), hx("TestC10_MgrxCleanup", 600, 8000), hx("TestC04_MgrxRestart", 800, 8000), hx("TestC05_MgrxRestart", 800, 8000)],
+     [hx("TestC10_GsxPending", 2400, 64000), hx("TestC16_Gsx", 2400, 64000), hx("TestC10_MgrxLocal", 4500, 128000), hx("TestC10_MgrxReplay", 3000, 96000), hx("TestC10_MgrxCleanup", 1800, 32000), hx("TestC04_MgrxRestart", 2400, 32000), hx("TestC05_MgrxRestart", 2400, 32000)],
      ["'a rejected restart fails the channel' is applied to the incoming restart request path; a responder whose own validator rejects a locally requested restart must send nothing and return an error (DESIGN 6.3)"],
      "generated roles x progress points x statuses x process restart x validator outcomes; sampled",
      TRUST)
 
 prop("C12", "Wire format is lossless, stable and safe to decode", "exploration", "wire",
      "property testing (rapid): round trips on three paths, byte equality with an independent schema encoder (own CBOR writer), key-order metamorphic relation, kind classification; structured byte/node mutations and coverage-guided native fuzzing (go test -fuzz) with the totality oracle in the target",
-     [{"bin": "wire", "test": "TestC12_RoundTrip", "quick": 20000, "thorough": 800000, "shards_thorough": 16},
-      {"bin": "wire", "test": "TestC12_Hostile", "quick": 30000, "thorough": 1600000, "shards_thorough": 16},
+     [{"bin": "wire", "test": "TestC12_RoundTrip", "quick": 60000, "thorough": 3200000, "shards_thorough": 16},
+      {"bin": "wire", "test": "TestC12_Hostile", "quick": 90000, "thorough": 6400000, "shards_thorough": 16},
       {"bin": "wire", "test": "TestC12_Seeds", "quick": 1, "thorough": 1, "rapid": False},
-      {"bin": "wire", "test": "FuzzFromNet", "gofuzz": True, "tiers": ["thorough"], "fuzztime_thorough": 180}],
+      {"bin": "wire", "test": "FuzzFromNet", "gofuzz": True, "tiers": ["thorough"], "fuzztime_thorough": 300}],
      ["ValidationResultResponse is exercised with the message types a response can have (new, update, cancel, complete, voucher-result, restart)",
       "message type numbers and schema key names are literals in the harness, i.e. what deployed peers expect"],
      "generated messages over the full value space and generated hostile inputs; native fuzzing in the thorough tier; sampled, not exhaustive",
@@ -97,7 +97,7 @@ prop("C12", "Wire format is lossless, stable and safe to decode", "exploration",
 
 prop("C13", "Stored channels survive schema migration unchanged", "exploration", "mig",
      "property testing (rapid): version-2 stores written by an independent CBOR encoder, field-by-field comparison of every accessor after migration, idempotent re-start (byte diff), readiness gate and listener call log",
-     [hx("TestC13_Migrate", 600, 24000), hx("TestC13_Ready", 600, 16000)],
+     [hx("TestC13_Migrate", 1800, 96000), hx("TestC13_Ready", 1800, 64000)],
      ["well-formed version-2 records: map-encoded struct with tuple-encoded stages, as the previous schema version wrote them (key order free)",
       "the readiness 'once' check waits 2 ms for a duplicate call after all listeners have been called"],
      "generated version-2 stores (every status incl. the deprecated ones, arbitrary field values, 0..6 channels); sampled",
@@ -111,7 +111,7 @@ def vt(test, quick, thorough, shards=16, **kw):
 
 prop("C14", "Channel monitor: restarts serialized and bounded; one verdict per channel", "exploration", "mon",
      "property testing (rapid) on virtual time (testing/synctest): generated configs x timed event scripts x failure scripts against invariants over the time-stamped call log of a monitor-API double",
-     [vt("TestC14_Mon", 20000, 2400000), vt("TestC14_MonNoFailures", 10000, 1200000)],
+     [vt("TestC14_Mon", 60000, 9600000), vt("TestC14_MonNoFailures", 30000, 4800000)],
      ["ties between a delivered event and an internal timer are excluded by construction (event instants are multiples of 10 ms, durations carry a 1..3 us residue; a zero debounce is generated as 1..3 us); ties between two internal instants are tolerated in either order",
       "only time is virtual: goroutine scheduling inside the bubble is still Go's"],
      "generated timed scripts with exact virtual-time instants; sampled, not exhaustive",
@@ -119,7 +119,7 @@ prop("C14", "Channel monitor: restarts serialized and bounded; one verdict per c
 
 prop("C15", "Network sends retry boundedly, deliver once; inbound dispatch is faithful", "fault_enumeration", "netx",
      "property testing (rapid) on virtual time over a scripted libp2p host double: stream-open failure patterns (all patterns up to the cap enumerated), cancel instants, write faults, inbound byte streams against call-log oracles",
-     [vt("TestC15_Send", 10000, 800000), vt("TestC15_SendPatterns", 1, 1, shards=1, rapid=False), vt("TestC15_Inbound", 10000, 800000)],
+     [vt("TestC15_Send", 30000, 3200000), vt("TestC15_SendPatterns", 1, 1, shards=1, rapid=False), vt("TestC15_Inbound", 30000, 3200000)],
      ["attempt counts are integral as every caller passes them; 0 behaves as 1 (a send always tries once)",
       "one message per inbound stream (what every sender produces); a stream that ends inside a CBOR value is treated as ended early (no report required), any other undecodable content must be reset and reported"],
      "every fail/succeed pattern of stream opens up to the cap (caps 0..6) is enumerated; cancel instants, latencies, write faults and inbound contents are sampled",
@@ -128,7 +128,7 @@ prop("C15", "Network sends retry boundedly, deliver once; inbound dispatch is fa
 
 prop("C16", "Transport routes each graphsync event to its channel; none after cleanup", "exploration", "gsx",
      "model-based stateful property testing (rapid): the real graphsync transport over a graphsync double; request-id -> channel ownership model against the call log of a recording events handler",
-     [hx("TestC16_Gsx", 2500, 64000), hx("TestC11_GsxMatrix", 500, 4000), hx("TestC09_Gsx", 500, 4000)],
+     [hx("TestC16_Gsx", 7500, 256000), hx("TestC11_GsxMatrix", 1500, 16000), hx("TestC09_Gsx", 1500, 16000), hx("TestC16_GsxCleanupRace", 1500, 32000)],
      ["the completion of a requester-side graphsync request (its response channels closing) is reported through the channel id the transport remembered even after cleanup; the check tolerates that report and asserts silence for hooks and listeners",
       "requestor-cancelled notifications are generated for responding-side requests only (where graphsync raises them)"],
      "generated callback sequences over 2..4 channels with colliding transfer ids and up to 3 requests per channel, cleanup anywhere; sampled",
@@ -136,7 +136,7 @@ prop("C16", "Transport routes each graphsync event to its channel; none after cl
 
 prop("C17", "Subscribers see every applied event once, in order", "exploration", "mgrx",
      "stateful property testing (rapid): subscriber call logs compared with the datastore write log (independent DAG-CBOR reader) and with a witness subscriber restricted to fenced subscription windows",
-     [hx("TestC17_Mgrx", 1000, 24000)],
+     [hx("TestC17_Mgrx", 3000, 96000)],
      ["every applied event changes the persisted bytes (stage-log timestamp), so the write log has exactly one Put per applied event - checked, not assumed, by the count comparison",
       "'released when the channel terminates' is observable only as 'no call after the terminal event'"],
      "generated multi-channel histories x subscriber sets x (un)subscribe points; sampled",
@@ -144,7 +144,7 @@ prop("C17", "Subscribers see every applied event once, in order", "exploration",
 
 prop("C06", "Durable and prefix-consistent across crashes", "fault_enumeration", "fsmx",
      "stateful property testing (rapid) with crash-point enumeration: every datastore write boundary of each generated history is materialised and reopened, decoded state compared with the publication-log snapshot that was current",
-     [hx("TestC06_Fsmx", 300, 4000)],
+     [hx("TestC06_Fsmx", 900, 16000)],
      ["crash model: the process stops between two datastore writes; a Put / Batch.Commit is atomic (torn writes inside the datastore are out of scope)",
       "messages and type identifiers are kept <= 4096 bytes (the generated codec caps strings at 8192)"],
      "within each generated history the crash points are enumerated (thorough: all write boundaries; quick: all when <= 40, else 40 including first and last); histories themselves are sampled",
@@ -152,21 +152,21 @@ prop("C06", "Durable and prefix-consistent across crashes", "fault_enumeration",
 
 prop("C07", "Transfer accounting counts every block position once", "exploration", "fsmx",
      "model-based property testing (rapid): run-structured block-report sequences with replays, duplicates and reopen against a reference accumulator; arbitrary triples for monotonicity",
-     [hx("TestC07_Fsmx", 1500, 32000), hx("TestC07_FsmxArbitrary", 1000, 16000), hx("TestC16_Gsx", 800, 8000), hxr("TestC07_RaceReports", 150, 4000)],
+     [hx("TestC07_Fsmx", 4500, 128000), hx("TestC07_FsmxArbitrary", 3000, 64000), hx("TestC16_Gsx", 2400, 32000), hxr("TestC07_RaceReports", 300, 12000)],
      ["equality with the sum over distinct positions is asserted for run-structured input in a transferring status only (DESIGN 6.4)"],
      "generated report sequences against a reference accumulator; sampled, not exhaustive",
      TRUST)
 
 prop("C08", "Data limits stop the transfer at the limit", "exploration", "fsmx",
      "model-based property testing (rapid): boundary-biased limit schedules against the reference rule 'pause iff limit != 0, the report advanced the total and total >= limit'",
-     [hx("TestC08_Fsmx", 1500, 32000), hx("TestC08_Mgrx", 1500, 32000)],
+     [hx("TestC08_Fsmx", 4500, 128000), hx("TestC08_Mgrx", 4500, 128000)],
      ["'no further payload progresses while paused' is asserted on the control flow (pause signal / pause call / nothing resumed), not on bytes in flight inside graphsync"],
      "generated limit schedules with boundary bias (total == limit reached in ~1/6 of the cases); sampled",
      TRUST)
 
 prop("C09", "Cleanup exactly once per ending; closing never hangs", "exploration", "fsmx",
      "stateful property testing (rapid) with racing injections: cleanup-call counter per ending against the publication log, settle-without-input watchdog, crash-restart in cleanup statuses",
-     [hx("TestC09_Fsmx", 1000, 16000), hx("TestC09_Mgrx", 1000, 16000), hx("TestC09_Gsx", 1000, 16000)],
+     [hx("TestC09_Fsmx", 3000, 64000), hx("TestC09_Mgrx", 3000, 64000), hx("TestC09_Gsx", 3000, 64000)],
      ["exactly-once is asserted when no event is applied during the cleanup window; with k racing events the bound is 1..1+k (DESIGN 6.1)",
       "bounded liveness: 'settles' / 'returns' use a 20 s watchdog against microsecond latencies"],
      "generated endings from every reachable status with and without racing events; schedules of the race are sampled by the Go scheduler",
@@ -174,14 +174,14 @@ prop("C09", "Cleanup exactly once per ending; closing never hangs", "exploration
 
 prop("C11", "Pause state per party", "exploration", "fsmx",
      "model-based stateful property testing (rapid) against a two-flag reference model updated by applied events only; ignored actions must leave accessors and bytes identical",
-     [hx("TestC11_Fsmx", 2500, 48000), hx("TestC11_Mgrx", 1500, 32000), hx("TestC11_GsxMatrix", 500, 4000)],
+     [hx("TestC11_Fsmx", 7500, 192000), hx("TestC11_Mgrx", 4500, 128000), hx("TestC11_GsxMatrix", 1500, 16000)],
      [],
      "generated interleavings of the four pause/resume actions and limit pauses in every reachable status, both roles; sampled",
      TRUST)
 
 prop("C18", "Channel identities never collide", "exploration", "racex",
      "property testing (rapid) under the Go race detector: concurrent opens checked for uniqueness / monotonicity / happens-before order of the returned ids; manager lifetimes and duplicate requests with a byte-level diff of the existing record",
-     [hxr("TestC18_RaceOpens", 60, 1600), hx("TestC18_Mgrx", 1200, 24000), hx("TestC18_FsmxDuplicate", 1000, 16000)],
+     [hx("TestC18_RaceIDGenerator", 25, 1600), hxr("TestC18_RaceOpens", 120, 4800), hx("TestC18_Mgrx", 3600, 96000), hx("TestC18_FsmxDuplicate", 3000, 64000)],
      ["non-decreasing wall clock across manager lifetimes (as the statement assumes)",
       "interleavings of the concurrent opens are sampled by the Go scheduler; the race detector reports only races that occur in executed interleavings"],
      "generated goroutine counts x opens per goroutine (2..16 x 1..40) under -race, generated lifetimes and duplicate points; sampled",
@@ -189,14 +189,14 @@ prop("C18", "Channel identities never collide", "exploration", "racex",
 
 prop("C19", "Channel state views are total and self-consistent", "exploration", "fsmx",
      "property testing (rapid): total accessor probe under recover and cross-view consistency on every state the explorers obtain, append-only log checks",
-     [hx("TestC19_Fsmx", 1500, 32000), hx("TestC19_Mgrx", 1000, 32000), hx("TestC04_MgrxUpdate", 600, 8000), hx("TestC04_MgrxRestart", 600, 8000)],
+     [hx("TestC19_Fsmx", 4500, 128000), hx("TestC19_Mgrx", 3000, 128000), hx("TestC04_MgrxUpdate", 1800, 32000), hx("TestC04_MgrxRestart", 1800, 32000)],
      [],
      "every state produced by generated histories is probed; reachable states are sampled",
      TRUST)
 
 prop("C20", "Concurrent use is free of data races and deadlocks", "exploration", "racex",
      "generated concurrent programs (rapid) under the Go race detector with call-return watchdogs, a production-like Stop protocol and a post-Stop goroutine dump inspection; plus every graphsync hook x every message kind (return check)",
-     [hxr("TestC20_Race", 40, 1600), hx("TestC20_GsxHooks", 1500, 32000), hxr("TestC18_RaceOpens", 30, 400), hxr("TestC07_RaceReports", 60, 800)],
+     [hxr("TestC20_Race", 80, 4800), hx("TestC20_GsxHooks", 4500, 128000), hxr("TestC18_RaceOpens", 60, 1200), hxr("TestC07_RaceReports", 120, 2400)],
      ["the harness does not own the Go scheduler: schedules are sampled, and the detector only reports races that occur in executed interleavings",
       "Stop is driven the way production does: API callers are joined first, transport callbacks on existing channels keep arriving until the transport's Shutdown (the last step of Stop)",
       "bounded liveness: a call that has not returned after 20..60 s (typical latency: microseconds) is a deadlock"],
@@ -216,7 +216,7 @@ ENGINES = [
     {"name": "fsmx", "path": "harness/hx (fsmx_*_test.go)", "serves_properties": ["C02", "C03", "C06", "C07", "C08", "C09", "C11", "C19"], "kind_free_text": "rapid state-machine tests driving channels.Channels over a recording datastore and environment"},
 ]
 
-HOOK_COMMITS = []
+HOOK_COMMITS = ["b94ffbdb28407b2e81c5a33cc5a2aaaaffa73062"]
 
 _ALL = ["C%02d" % i for i in range(1, 21)]
 NOT_APPLICABLE = [
